@@ -16,7 +16,7 @@ STATE_POOLS = {
 }
 LABEL_POOL = ['p', 'q', 'r_1', 'p or q', 'not p', 'true', 'false', 'A', 'E', 'X', 'U', 'fair', 'fair0',
               '[E(X(p))]', '[A(G(p))]', '(p)', 'p and', '', ' ', 'AG', 'Xp', 7, 0, (1, 2), None, 3.5,
-              frozenset(['p']), 'a"b', 'a\nb', 'a\\b', 'x' * 200, b'p']
+              frozenset(['p']), 'a"b', 'a\nb', 'a\\b', 'x' * 200, b'p', '{crit}', 'n{1}', '{}', 'done}', '{0}', 'a%sb', '%d', '$p', 'p;q', 'p,q']
 ABSENT = ['absent', 'zz_9', 'not_in_K', 'Absent atom']
 CHECKERS = ['CTL', 'LTL', 'CTLS']
 
